@@ -156,6 +156,8 @@ def one_history(args):
             restart_at = {n_ops // 2, n_ops // 2 + 1}
         elif variant == "restart-then-more":
             restart_at = {n_ops // 3, 2 * n_ops // 3}
+        elif variant.startswith("tail"):
+            restart_at = set()
         else:
             restart_at = {i for i in range(n_ops) if rnd.random() < 0.02}
         last_index = 0
@@ -188,6 +190,27 @@ def one_history(args):
                 if any(not is_meta(x) for x in vl):
                     break
         else:
+            if variant.startswith("tail"):
+                # a compaction, then exactly k more acknowledged writes, then the restart: the replay has to pick up
+                # precisely the k entries behind the newest snapshot (k = 0, 1, 2)
+                sess.call("barrier", min_index=last_index, bound_ms=RECOVER_BOUND_MS)
+                cr = sess.call("compact")
+                if cr.get("ok"):
+                    res["compactions"] += 1
+                trace.append("<compact>")
+                for _ in range(int(variant[4:])):
+                    req = gen.next(last_content)
+                    while "ConfigSet" not in req:
+                        req = gen.next(last_content)
+                    last_content = req["ConfigSet"]["value"]
+                    r = sess.write(req)
+                    trace.append(req_kind(req))
+                    if r.get("ok"):
+                        res["writes"] += 1
+                        last_index = max(last_index, r.get("index", 0))
+                        seqm.observe(req, r.get("resp"))
+                    else:
+                        seqm.observe(req, None)
             sess, v = restart_compare(sess, d, gen, real_snap, last_index, "final", seqm)
             res["restarts"] += 1
             found += v if isinstance(v, list) else ([v] if v else [])
@@ -341,6 +364,8 @@ def run(tier, seed):
             jobs.append((wd, seed * 100000 + i, rnd.choice([40, 120, 300]), snap, variant))
         for i in range(2 if tier == "quick" else 40):
             jobs.append((wd, seed * 100000 + 50000 + i, 120, [10000, 25][i % 2], "big-values"))
+        for i in range(3 if tier == "quick" else 30):
+            jobs.append((wd, seed * 100000 + 55000 + i, [40, 120][i % 2], 10000, "tail%d" % (i % 3)))
         ic = [(wd, seed * 100000 + 80000 + i, ["most", "half", "all-but-flush"][i % 3]) for i in range(3 if tier == "quick" else 45)]
         results = []
         with ThreadPoolExecutor(max_workers=common.NCPU) as ex:
